@@ -460,6 +460,11 @@ class BuiltinMixin:
         w = f"L{getattr(node, 'lineno', '?')}"
         kind = recv.cls.split("[")[0]
         if recv.cls.endswith("[?]"):
+            if self.lenient and name in ("append", "insert", "extend", "add", "update", "setdefault") and \
+                    any(isinstance(a, VOpaque) for a in args):
+                # an unmodelled value goes into a still untyped local container: the container becomes unmodelled
+                p.ghost["$opaque_boxes"] = p.ghost.get("$opaque_boxes", frozenset()) | {str(recv.z)}
+                return [(p, VOpaque("entry of unmodelled local container"))]
             if kind == "list" and name in ("append", "insert"):
                 self._ensure_box(p, recv, "list", [self._elem_ty_of(args[-1])])
             elif kind == "list" and name == "extend":
@@ -468,11 +473,26 @@ class BuiltinMixin:
             elif kind == "set" and name == "add":
                 self._ensure_box(p, recv, "set", [self._elem_ty_of(args[0])])
             elif kind == "dict" and name in ("update", "setdefault"):
-                raise Unsupported("dict[?] update")
+                if not self.lenient:
+                    raise Unsupported("dict[?] update")
+                # lenient mode: a function-local dictionary of unknown element type becomes an unmodelled container
+                # (its later items()/values()/lookups are arbitrary); effect obligations do not depend on its content
+                p.ghost["$opaque_boxes"] = p.ghost.get("$opaque_boxes", frozenset()) | {str(recv.z)}
+                return [(p, VOpaque("entry of unmodelled local dict"))]
+            elif self.lenient and str(recv.z) in p.ghost.get("$opaque_boxes", ()):
+                if name in ("values", "items", "keys"):
+                    return [(p, VOpaque("items of unmodelled local dict"))]
+                return [(p, VOpaque("result of unmodelled local dict." + name))]
             elif name in ("clear", "copy", "values", "items", "keys", "get", "pop"):
                 if name in ("values", "items", "keys"):
+                    if self.lenient:
+                        # loops are cut: an untyped local dict may have been filled by an earlier iteration of a cut loop;
+                        # over-approximate its content (sound: an opaque iterable may also be empty)
+                        return [(p, VOpaque("items of unmodelled local dict"))]
                     return [(p, VTup([]))]
                 if name == "get":
+                    if self.lenient:
+                        return [(p, VOpaque("lookup in unmodelled local dict"))]
                     return [(p, args[1] if len(args) > 1 else VNone())]
                 if name == "clear":
                     return [(p, VNone())]
@@ -694,6 +714,9 @@ class BuiltinMixin:
     def set_item(self, p: Path, base: V, idx: V, v: V, node):
         w = f"L{node.lineno}"
         if isinstance(base, VRef) and base.cls is not None:
+            if base.cls == "dict[?]" and self.lenient and (isinstance(idx, VOpaque) or isinstance(v, VOpaque)):
+                p.ghost["$opaque_boxes"] = p.ghost.get("$opaque_boxes", frozenset()) | {str(base.z)}
+                return [(p, NEXT)]
             if base.cls == "dict[?]":
                 self._ensure_box(p, base, "dict", [self._elem_ty_of(idx), self._elem_ty_of(v)])
             d = self.classes.get(base.cls)
